@@ -55,3 +55,31 @@ def _names(va, vb):
         return f" ({na[:8]} -> {nb[:8]})"
     except Exception:  # noqa: BLE001
         return ""
+
+
+def without_attr_tensor_names(b: bytes) -> bytes:
+    """The serialised model with the OWN name of every tensor held by a node attribute blanked (at every
+    depth, functions included). Initializer tensors keep their names: those identify the initializer."""
+    m = onnx.ModelProto()
+    m.ParseFromString(b)
+
+    def graph(g):
+        for n in g.node:
+            node(n)
+
+    def node(n):
+        for a in n.attribute:
+            if a.HasField("t"):
+                a.t.name = ""
+            for t in a.tensors:
+                t.name = ""
+            if a.HasField("g"):
+                graph(a.g)
+            for sg in a.graphs:
+                graph(sg)
+
+    graph(m.graph)
+    for f in m.functions:
+        for n in f.node:
+            node(n)
+    return m.SerializeToString(deterministic=True)
